@@ -35,7 +35,9 @@ def cases(draw, tier):
     sub = draw(st.lists(st.tuples(st.integers(0, nbig - 1), st.integers(1, 30)).map(list), max_size=8))
     extra = draw(st.lists(st.lists(st.sampled_from(alph), min_size=1, max_size=2, unique=True), max_size=2))
     return {"kind": kind, "big": big, "sub": sub, "extra": extra, "min_size": draw(st.integers(1, 3)),
-            "excl": draw(st.booleans()), "closed": draw(st.integers(0, 3)) == 0, "shuffle": draw(st.integers(0, 1000))}
+            "excl": draw(st.booleans()), "closed": draw(st.integers(0, 3)) == 0, "shuffle": draw(st.integers(0, 1000)),
+            # attributes called like statistics ("size", "order", "degree") on the elements; an empty edge ahead of the others
+            "shadow": draw(st.integers(0, 3)) == 0, "empty_first": draw(st.integers(0, 5)) == 0}
 
 
 def strategy(tier):
@@ -72,7 +74,12 @@ def same_num(a, b):
 
 def run_case(case, ctx):
     fam = edge_family(case)
-    H = xgi.Hypergraph([sorted(e) for e in fam])
+    H = xgi.Hypergraph()
+    if case.get("empty_first"):
+        H.add_edge([])  # an empty edge is an edge without repeated copies like any other (it is below every min_size)
+    H.add_edges_from([sorted(e) for e in fam])
+    if case.get("shadow"):
+        nets.shadow_stat_names(H)
     _evaluate(H, case, ctx)
     # the same object after a small in-place edit (still without repeated edges): everything is enumerated and compared again
     if nets.small_edit(H, no_duplicates=True) is not None and not any(len(m) == 0 for m in H.edges.members()):
